@@ -309,6 +309,10 @@ func c45Gen(seed uint64, run int, tier string, prop string) *Case {
 		c04BatchGen(r, c, tier)
 		return c
 	}
+	if prop == "C04" && run%10 == 7 {
+		c04UfsGen(r, c, tier)
+		return c
+	}
 	nconn := r.Pick(1, 1, 2)
 	c.Cfg["nconn"] = int64(nconn)
 	n := r.Range(10, 40)
@@ -441,6 +445,10 @@ func c45Exec(x *Ctx) {
 		c04BatchExec(x)
 		return
 	}
+	if c.cfg("ufsfids") != 0 {
+		c04UfsExec(x)
+		return
+	}
 	prop := c.Property
 	report := func(rule, format string, a ...any) {
 		// rules a* are C04's, b* are C05's; the shared harness evaluates both
@@ -460,6 +468,8 @@ func c45Exec(x *Ctx) {
 	for i := range byTag {
 		byTag[i] = map[uint16]Op{}
 	}
+	holdTag := make([]bool, 1<<16)
+	hr := NewRand(c.Seed ^ 0x401d)
 	fs.PlanFor = func(inv *Inv) *Plan {
 		p := &Plan{NWqid: -1, NData: -1}
 		if inv.Conn < 0 || inv.Conn >= nconn {
@@ -469,6 +479,9 @@ func c45Exec(x *Ctx) {
 		if !ok {
 			if inv.Op == "attach" {
 				p.QType = qDir
+			}
+			if holdTag[inv.Tag] {
+				p.Mode, p.OnFlush = PHold, 1
 			}
 			return p
 		}
@@ -480,6 +493,10 @@ func c45Exec(x *Ctx) {
 		if (inv.Op == "read" || inv.Op == "write") && uint64(inv.Req.Tc.Count) > uint64(ms) {
 			// never allocate what an unchecked count asks for; the invocation itself is the finding
 			p.Err = true
+		}
+		if holdTag[inv.Tag] {
+			p.Mode = PHold
+			p.OnFlush = 1 // a Tflush of a request parked here cancels it (the epilogue's flush)
 		}
 		if inv.Op == "read" {
 			p.NData = int(inv.Req.Tc.Count)
@@ -499,7 +516,7 @@ func c45Exec(x *Ctx) {
 		return fs.authErrNext
 	}
 	fs.AuthCheckErr = func(inv *Inv) bool { return fs.authErrNext }
-	sys := NewSrvSys(x, fs.OpsValue(auth, false), fs, ms, true, int(c.cfg("maxpend")), int(c.cfg("debug")))
+	sys := NewSrvSys(x, fs.OpsValue(auth, true), fs, ms, true, int(c.cfg("maxpend")), int(c.cfg("debug")))
 	model := &fidModel{auth: auth, msize: ms}
 	for i := 0; i < nconn; i++ {
 		sys.AddConn(0, int(c.cfg("seg")))
@@ -512,7 +529,7 @@ func c45Exec(x *Ctx) {
 	for i := range ptrs {
 		ptrs[i] = map[uint32]*go9p.SrvFid{}
 	}
-	finished := false
+	finished, epilogue := false, false
 	rt.Go(rt.SiteSpawn, func() {
 		rt.SetName("history")
 		ver := "9P2000"
@@ -550,7 +567,26 @@ func c45Exec(x *Ctx) {
 				srcFid = &cp
 			}
 			v := model.judge(op)
-			rep := peer.Call(msg)
+			var rep *Recvd
+			if v.op == "write" && v.refuse == "" && !v.anyErr && hr.Pct(30) {
+				// the implementation keeps the Twrite for a while and the client's next request (one the
+				// framework refuses by itself) arrives meanwhile: what the implementation was handed stays intact
+				holdTag[tag] = true
+				s := peer.Write(msg)[0]
+				rt.YieldUntil(rt.SiteActor, func() bool { return len(fs.HeldInvs()) > 0 || s.Reply != nil || peer.EOF })
+				filler := peer.Call(&Msg{Type: Twstat, Tag: uint16(40000 + i%20000), Fid: 0x7FFFFFF0, Stat: nullStat(func(st *Stat) { st.Name = "a-name-long-enough-to-cover-a-message-header" })})
+				if filler != nil && filler.M != nil && filler.M.Type != Rerror {
+					report("a1-not-refused", "Twstat on the never-bound fid %#x was answered %s", 0x7FFFFFF0, filler.M)
+				}
+				for _, h := range fs.HeldInvs() {
+					h.Released = true
+				}
+				rt.YieldUntil(rt.SiteActor, func() bool { return s.Reply != nil || peer.EOF })
+				rep = s.Reply
+				x.Probe("write-held-while-next-request-arrives")
+			} else {
+				rep = peer.Call(msg)
+			}
 			if rep == nil || rep.M == nil {
 				report("a0-no-reply", "request %d (%s) got no reply", i, msg)
 				report("b0-no-reply", "request %d (%s) got no reply", i, msg)
@@ -690,6 +726,34 @@ func c45Exec(x *Ctx) {
 				}
 			}
 		}
+		// epilogue (C04): the client leaves -- on some connections after a request of its was cancelled by a
+		// Tflush -- and every fid the implementation was ever shown must have been reported destroyed exactly once
+		if prop == "C04" && hr.Pct(60) {
+			epilogue = true
+			for ci := 0; ci < nconn; ci++ {
+				peer := sys.Conns[ci].Peer
+				var some []uint32
+				for _, fno := range c45FidNos {
+					if f := model.get(ci, fno); f != nil && f.qtype&qAuth == 0 {
+						some = append(some, fno)
+					}
+				}
+				if len(some) > 0 && hr.Pct(60) {
+					tg := uint16(30000 + ci)
+					holdTag[tg] = true
+					s := peer.Write(&Msg{Type: Tstat, Tag: tg, Fid: some[hr.Intn(len(some))]})[0]
+					rt.YieldUntil(rt.SiteActor, func() bool { return len(fs.HeldInvs()) > 0 || s.Reply != nil || peer.EOF })
+					if fr := peer.Call(&Msg{Type: Tflush, Tag: tg + 100, Oldtag: tg}); fr == nil || fr.M == nil || fr.M.Type != Rflush {
+						report("a0-no-reply", "the epilogue's Tflush was not answered with Rflush")
+					}
+					for _, h := range fs.HeldInvs() {
+						h.Released = true
+					}
+					x.Probe("request-cancelled-before-the-disconnect")
+				}
+				sys.Conns[ci].Clnt.Close()
+			}
+		}
 		finished = true
 	})
 	if !x.Run() {
@@ -698,6 +762,30 @@ func c45Exec(x *Ctx) {
 	if !finished && len(x.Res.Viol) == 0 {
 		report("a0-no-reply", "the history did not finish: a request got no reply")
 		report("b0-no-reply", "the history did not finish: a request got no reply")
+	}
+	if epilogue && finished {
+		destroyed := map[*go9p.SrvFid]int{}
+		var shown []*go9p.SrvFid
+		seen := map[*go9p.SrvFid]bool{}
+		for _, in := range fs.Log {
+			if in.Op == "fiddestroy" {
+				destroyed[in.FidP]++
+				continue
+			}
+			for _, fp := range []*go9p.SrvFid{in.FidP, in.NewfidP, in.AfidP} {
+				if fp != nil && !seen[fp] {
+					seen[fp] = true
+					shown = append(shown, fp)
+				}
+			}
+		}
+		for _, fp := range shown {
+			if destroyed[fp] != 1 {
+				report("a5-destroy-count", "after the client left, a fid the implementation had been shown was reported destroyed %d times (want exactly once)", destroyed[fp])
+				break
+			}
+		}
+		x.Probe("disconnect-epilogue")
 	}
 	x.FaultN("seg-split", sys.Conns[0].Srv.In.Splits+sys.Conns[0].Clnt.In.Splits)
 }
